@@ -1,7 +1,9 @@
 package sim
 
 import (
+	"bytes"
 	"fmt"
+	"sort"
 	"time"
 
 	"github.com/nspcc-dev/dbft"
@@ -191,7 +193,7 @@ func (a *Async) enabled(k int) bool {
 		return true
 	case aSupplyTx:
 		for _, n := range w.Live() {
-			if len(n.D.MissingTransactions) > 0 {
+			if len(wanted(n)) > 0 {
 				return true
 			}
 		}
@@ -353,17 +355,28 @@ func (a *Async) step() {
 	case aSupplyTx:
 		var c []*Node
 		for _, n := range w.Live() {
-			if len(n.D.MissingTransactions) > 0 {
+			if len(wanted(n)) > 0 {
 				c = append(c, n)
 			}
 		}
 		n := c[a.r("node", len(c))]
-		h := n.D.MissingTransactions[a.r("missing", len(n.D.MissingTransactions))]
+		wl := wanted(n)
+		h := wl[a.r("missing", len(wl))]
 		if tx, ok := w.TxByHash(h); ok {
+			if _, have := n.Pool[h]; !have && a.pct("poolfirst", 20) {
+				// the transaction reaches the pool first, the notification follows later
+				w.Stat("tx_pool_before_notification")
+				w.act("poolTx(%d) %x", n.ID, uint64(tx))
+				n.AddTx(tx)
+				break
+			}
 			w.Stat("supply_tx")
 			w.act("supplyTx(%d) %x", n.ID, uint64(tx))
+			delete(n.Want, h)
 			n.Transaction(tx)
 			a.afterCall(n)
+		} else {
+			delete(n.Want, h) // a hash nobody can supply (Byzantine proposal)
 		}
 	case aBadTx:
 		live := w.Live()
@@ -637,6 +650,23 @@ func (a *Async) equivocate(j, idx int, h uint32, v byte, honest []*Node) {
 			follow(pb, n)
 		}
 	}
+}
+
+// wanted lists what node n's application was asked for at its current height and view and has not handed over yet,
+// in a stable order.
+func wanted(n *Node) []vt.H {
+	var out []vt.H
+	for h, hv := range n.Want {
+		if hv[0] < n.D.BlockIndex {
+			delete(n.Want, h)
+			continue
+		}
+		if hv[0] == n.D.BlockIndex && hv[1] == uint32(n.D.ViewNumber) {
+			out = append(out, h)
+		}
+	}
+	sort.Slice(out, func(i, j int) bool { return bytes.Compare(out[i][:], out[j][:]) < 0 })
+	return out
 }
 
 func (a *Async) tipHashFor(t *Node, h uint32) vt.H {
